@@ -25,3 +25,63 @@ def goLen (l : List UInt8) : Int := l.length
 def goHasSuffix (l suf : List UInt8) : Bool := hasSuffix l suf
 
 end Redact
+
+namespace Redact
+
+/-- `buffer.Buffer` as the translated code sees it: the bytes of `b.buf` (capacity is not
+translated: the `tryGrowByReslice`/`grow` idiom becomes `goExtend`), and the three scalar fields
+with Go's types. -/
+structure GoBuffer where
+  buf : List UInt8 := []
+  validUntil : Int := 0
+  mode : Int := 0
+  markerOpen : Bool := false
+deriving DecidableEq, Repr, Inhabited
+
+/-- What an out-of-range slice expression evaluates to here (Go panics): a value no model
+function produces, so that an equality with the model has to show the bounds are respected. -/
+def goPanicBytes : List UInt8 := [0xDE, 0xAD, 0xBE, 0xEF, 0xDE, 0xAD]
+
+/-- `m, ok := b.tryGrowByReslice(n); if !ok { m = b.grow(n) }`: the slice is extended by `n` bytes
+whose content is unspecified (zero here; they are overwritten by the `copy` that follows). -/
+def goExtend (l : List UInt8) (n : Int) : List UInt8 := l ++ List.replicate n.toNat 0
+
+/-- `copy(l[m:], src)`. -/
+def goCopyAt (l : List UInt8) (m : Int) (src : List UInt8) : List UInt8 :=
+  if 0 ≤ m ∧ m.toNat ≤ l.length then
+    let k := min (l.length - m.toNat) src.length
+    l.take m.toNat ++ src.take k ++ l.drop (m.toNat + k)
+  else goPanicBytes
+
+def goCopyN (l : List UInt8) (m : Int) (src : List UInt8) : Int :=
+  (min (l.length - m.toNat) src.length : Nat)
+
+/-- `l[m] = x`. -/
+def goSetAt (l : List UInt8) (m : Int) (x : UInt8) : List UInt8 :=
+  if 0 ≤ m ∧ m.toNat < l.length then l.set m.toNat x else goPanicBytes
+
+/-- `l[:k]` (within the length: extending into the capacity is `goExtend`). -/
+def goSliceTo (l : List UInt8) (k : Int) : List UInt8 :=
+  if 0 ≤ k ∧ k.toNat ≤ l.length then l.take k.toNat else goPanicBytes
+
+def goSliceFrom (l : List UInt8) (k : Int) : List UInt8 :=
+  if 0 ≤ k ∧ k.toNat ≤ l.length then l.drop k.toNat else goPanicBytes
+
+def goSlice (l : List UInt8) (a b : Int) : List UInt8 :=
+  if 0 ≤ a ∧ a ≤ b ∧ b.toNat ≤ l.length then (l.take b.toNat).drop a.toNat else goPanicBytes
+
+def goIndex (l : List UInt8) (i : Int) : UInt8 := l.getD i.toNat 0
+
+/-- `utf8.RuneLen`. -/
+def goRuneLen (r : Int) : Int :=
+  if r < 0 then -1 else if r < 0x80 then 1 else if r < 0x800 then 2
+  else if 0xD800 ≤ r ∧ r ≤ 0xDFFF then -1 else if r < 0x10000 then 3 else if r ≤ 0x10FFFF then 4 else -1
+
+/-- `escape.InternalEscapeBytes` (modelled in Model/Escape.lean; proved against its token-level
+specification in Proofs/Escape.lean; tied to the code by the exhaustive E streams). -/
+def goInternalEscapeBytes (l : List UInt8) (startLoc : Int) (nl strip : Bool) : List UInt8 :=
+  escapeBytesAt l startLoc.toNat nl strip
+
+def goStripMarkers (l : List UInt8) : List UInt8 := stripMarkers l
+
+end Redact
